@@ -26,10 +26,11 @@ use varpulis_cluster::ClusterError;
 
 mod route;
 
-static RT: OnceLock<tokio::runtime::Runtime> = OnceLock::new();
+pub static RT: OnceLock<tokio::runtime::Runtime> = OnceLock::new();
 static SCRIPT: Mutex<VecDeque<bool>> = Mutex::new(VecDeque::new());
-static NEXT_ID: Mutex<u64> = Mutex::new(0);
-static PORT: OnceLock<u16> = OnceLock::new();
+pub static BATCHLOG: Mutex<Vec<(String, J)>> = Mutex::new(Vec::new());
+pub static NEXT_ID: Mutex<u64> = Mutex::new(0);
+pub static PORT: OnceLock<u16> = OnceLock::new();
 
 const UNIT_MS: u64 = 1000;
 
@@ -52,22 +53,30 @@ fn start_stub() {
                 warp::reply::with_status(warp::reply::json(&json!({"error": "scripted failure"})), warp::http::StatusCode::INTERNAL_SERVER_ERROR)
             }
         });
+    let batch = warp::path!("api" / "v1" / "pipelines" / String / "events-batch")
+        .and(warp::post())
+        .and(warp::body::json::<J>())
+        .map(|pid: String, body: J| {
+            let n = body["events"].as_array().map(|a| a.len()).unwrap_or(0);
+            BATCHLOG.lock().unwrap().push((pid, body));
+            warp::reply::with_status(warp::reply::json(&json!({"accepted": n, "output_events": []})), warp::http::StatusCode::OK)
+        });
     let (addr, fut) = {
         let _g = rt.enter();
-        warp::serve(deploy).bind_ephemeral(([127, 0, 0, 1], 0))
+        warp::serve(deploy.or(batch)).bind_ephemeral(([127, 0, 0, 1], 0))
     };
     rt.spawn(fut);
     PORT.set(addr.port()).unwrap();
 }
 
-fn wname(id: u64) -> String {
+pub fn wname(id: u64) -> String {
     format!("w{}", id)
 }
 fn wnum(id: &WorkerId) -> u64 {
     id.0[1..].parse().unwrap()
 }
 /// "p<l>" -> 16*l ; "p<l>#k" -> 16*l + k + 1
-fn pcode(name: &str) -> u64 {
+pub fn pcode(name: &str) -> u64 {
     let body = &name[1..];
     match body.split_once('#') {
         Some((l, k)) => 16 * l.parse::<u64>().unwrap() + k.parse::<u64>().unwrap() + 1,
@@ -272,6 +281,18 @@ fn run_coord(req: &J) -> J {
                 }
                 "ok".into()
             }
+            "set_status" => {
+                // a status written from outside the operations under test (sync_from_raft, k8s pod watcher): public field
+                if let Some(w) = s.c.workers.get_mut(&WorkerId(wname(n(1)))) {
+                    w.status = match o[2].as_str().unwrap() {
+                        "G" => WorkerStatus::Registering,
+                        "R" => WorkerStatus::Ready,
+                        "U" => WorkerStatus::Unhealthy,
+                        _ => WorkerStatus::Draining,
+                    };
+                }
+                "ok".into()
+            }
             "sweep" => {
                 let r = s.c.health_sweep();
                 let mut ids: Vec<u64> = r.workers_marked_unhealthy.iter().map(wnum).collect();
@@ -447,6 +468,7 @@ fn main() {
     vp_common::serve(|req| match req["kind"].as_str() {
         Some("coord") => run_coord(req),
         Some("route") => route::run_route(req),
+        Some("hash") => route::run_hash(req),
         _ => json!({"error": "bad kind"}),
     });
 }
